@@ -50,8 +50,21 @@ def main():
             json.dump(stats, fh)
         os.replace(os.path.join(outdir, "stats.json.tmp"), os.path.join(outdir, "stats.json"))
 
+    import re
+
+    digits = re.compile(rb"[0-9]{5,}")
+
+    def hazardous(rest):
+        # an NMEA count field with a large number makes pynmeagps loop that many
+        # times inside one parse call (dependency hazard, see DESIGN.md 7.2); such
+        # inputs are skipped and counted - the oracle has no clock to judge them
+        if b"$" in rest and digits.search(rest):
+            stats["skipped_nmea_big_number"] = stats.get("skipped_nmea_big_number", 0) + 1
+            return True
+        return False
+
     def one_c08(data):
-        if not data:
+        if not data or hazardous(data):
             return
         b0, rest = data[0], bytes(data[1:])
         route, mode, bf, validate, qe = b0 & 3, (b0 >> 2) & 3, (b0 >> 4) & 1, (b0 >> 5) & 1, (b0 >> 6) % 3
@@ -76,7 +89,7 @@ def main():
                 report(k, d, {"kind": "stream", "data": rest, "opts": opts})
 
     def one_c07(data):
-        if not data:
+        if not data or hazardous(data):
             return
         b0, rest = data[0], bytes(data[1:])
         opts = {"msgmode": b0 & 3, "validate": (b0 >> 2) & 1, "parsebitfield": (b0 >> 3) & 1,
